@@ -429,7 +429,8 @@ def replay_dict(sdl, case, what, impl=None, model=None):
 
 def judge(ck, sdl, schema, c, outs, early):
     """One case: implementation run vs the four model answers."""
-    o1, o3, o4 = outs
+    o1, o3, o4 = outs[:3]
+    o2 = outs[3] if len(outs) > 3 else None
     model = dec_dresponse(o1)
     ref = G.dec_response(o3)
     key_src = (sdl, c["text"], json.dumps(c["variables"], sort_keys=True, default=repr),
@@ -487,6 +488,31 @@ def judge(ck, sdl, schema, c, outs, early):
         if unordered(merged_model) != unordered(ref["data"]):
             ck.violation(kid, "reassembled data differs from the execution with @defer erased",
                          dict(replay_dict(sdl, c, "reassembly", r, model), reference=repr(ref["data"])[:2000]))
+    # model-internal: the base executor's run (planning off) is Spec.execute of the erased document - also when a
+    # deferred fragment visit was repeated (the theorem assumes it was not)
+    if o2 is not None:
+        plain = dec_dresponse(o2)
+        if plain["kind"] == "response" and ref["kind"] == "response":
+            ck.count("plain_vs_erased_spec_checked")
+            if (plain["data"], plain["errors"], plain["calls"], plain["payloads"]) != (ref["data"], ref["errors"], ref["calls"], []):
+                ck.violation(kid + ":plain", "model inconsistency: base-executor run differs from Spec.execute of the erased document",
+                             dict(replay_dict(sdl, c, "plain-vs-spec", plain, ref)))
+        elif plain["kind"] != ref["kind"]:
+            ck.violation(kid + ":plain", f"model inconsistency: base-executor run {plain['kind']} vs erased Spec {ref['kind']}",
+                         dict(replay_dict(sdl, c, "plain-vs-spec", plain, ref)))
+    # the implementation's own execution of the operation with @defer removed agrees with the erased reference
+    try:
+        iref = G.run_impl(schema, c04.strip_directives(c["doc"]), c["data"], c["variables"], c["operation_name"])
+    except Exception as e:  # noqa: BLE001
+        iref = {"kind": "raised", "messages": [repr(e)]}
+    if iref["kind"] == "response" and ref["kind"] == "response":
+        ck.count("impl_reference_checked")
+        if iref["data"] != ref["data"] or iref["errors"] != ref["errors"]:
+            ck.violation(kid + ":ref", "execute_sync of the operation with @defer removed differs from Spec.execute(erase_defer)",
+                         dict(replay_dict(sdl, c, "reference", c02.strip(iref), ref)))
+        if not iref["errors"] and unordered(impl["merged"]) != unordered(iref["data"]):
+            ck.violation(kid + ":c04", "reassembled data differs from the implementation's own non-incremental response",
+                         dict(replay_dict(sdl, c, "c04", impl["merged"], iref["data"])))
     # resolver calls of the whole run as a multiset
     mcalls = list(model["calls"])
     for p in model["payloads"]:
@@ -521,8 +547,11 @@ def run_schema(ck, m, rng, n_docs, max_depth, p_bad):
     o1 = m.run_batch([[1] + c["wire"] for c in cases])
     o3 = m.run_batch([[3] + c["wire"] for c in cases])
     o4 = m.run_batch([[4] + c["wire"] for c in cases])
-    for c, a, b, d in zip(cases, o1, o3, o4):
-        judge(ck, sdl, schema, c, (a, b, d), early=rng.random() < 0.3)
+    o2 = m.run_batch([[2] + c["wire"] for c in cases])
+    for c, a, b, d, e in zip(cases, o1, o3, o4, o2):
+        for f in c["features"]:
+            ck.count("feature:" + f)
+        judge(ck, sdl, schema, c, (a, b, d, e), early=rng.random() < 0.3)
 
 
 FIXED_SDL = DEFER_SDL + """
@@ -587,9 +616,10 @@ def fixed_cases(ck, m):
     o1 = m.run_batch([[1] + c["wire"] for c in cases])
     o3 = m.run_batch([[3] + c["wire"] for c in cases])
     o4 = m.run_batch([[4] + c["wire"] for c in cases])
-    for c, a, b, d in zip(cases, o1, o3, o4):
+    o2 = m.run_batch([[2] + c["wire"] for c in cases])
+    for c, a, b, d, e in zip(cases, o1, o3, o4, o2):
         for early in (False, True):
-            judge(ck, FIXED_SDL, schema, c, (a, b, d), early)
+            judge(ck, FIXED_SDL, schema, c, (a, b, d, e), early)
 
 
 # --------------------------------------------------------------------------- the check
@@ -688,7 +718,7 @@ def run_corpus_case(ck, m, c):
         return
     case = {"text": c["document"], "doc": doc, "variables": c.get("variables") or {}, "data": data, "wire": wire,
             "operation_name": c.get("operation_name"), "kinds": ["corpus"], "features": [], "injected": []}
-    outs = [m.run_batch([[op] + wire])[0] for op in (1, 3, 4)]
+    outs = [m.run_batch([[op] + wire])[0] for op in (1, 3, 4, 2)]
     judge(ck, c["sdl"], schema, case, outs, early=False)
 
 
